@@ -146,7 +146,7 @@ prop(
     "C08",
     level="other",
     design_ref="DESIGN.md section 3, C08",
-    groups=[(["./pipeline"], r"^(\(\*Batcher\)\.(Add|heartbeat|trySendBatchAndUnlock|getBatch|commitBatch|work|Stop)|\(\*Batch\)\.(append|updateStatus|reset)|\(\*Event\)\.IsChildParentKind)$")],
+    groups=[(["./pipeline"], r"^(\(\*Batcher\)\.(Add|heartbeat|trySendBatchAndUnlock|getBatch|commitBatch|work|Stop|Start)|\(\*Batch\)\.(append|updateStatus|reset)|\(\*Event\)\.IsChildParentKind)$")],
     script_canaries=["replay/C08/stop_add_race.sh"],
     claim=(
         "Batcher mechanisms proved with monitor (lock) invariants on the real code, for all arrival patterns, event sizes, limits and worker counts: "
@@ -245,7 +245,7 @@ prop(
     "C04",
     level="other",
     design_ref="DESIGN.md section 3, C04",
-    groups=[(_PIPE, r"^(\(\*eventPool\)\.wakeupWaiters|\(\*lowMemoryEventPool\)\.(wakeupWaiters|back|eventsAvailable)|\(\*stream\)\.(put|tryDetach|tryUnblock|blockGet|attach)|\(\*streamer\)\.(makeCharged|makeBlocked|resetBlocked|isBlocked|joinStream)|\(\*processor\)\.(process|dischargeStream|tryMarkBusy|tryResetBusy)|\(\*Batch\)\.updateStatus|\(\*Batcher\)\.(heartbeat|work))$")],
+    groups=[(_PIPE, r"^(\(\*eventPool\)\.wakeupWaiters|\(\*lowMemoryEventPool\)\.(wakeupWaiters|back|eventsAvailable)|\(\*stream\)\.(put|tryDetach|tryUnblock|blockGet|attach)|\(\*streamer\)\.(makeCharged|makeBlocked|resetBlocked|isBlocked|joinStream)|\(\*streamer\)\.start|\(\*processor\)\.(process|dischargeStream|tryMarkBusy|tryResetBusy|start|AddActionPlugin)|newProcessor|\(\*Pipeline\)\.(Start|newProc|initProcs|expandProcs)|\(\*Batch\)\.updateStatus|\(\*Batcher\)\.(heartbeat|work|Start))$")],
     canaries=[("./pipeline", "replay/C04/zz_replay_c04_test.go", "TestVerifReplayC04"),
               ("./pipeline", "replay/C04/zz_stale_heartbeat_snapshot_test.go", "TestVerifStaleHeartbeatSnapshot")],
     claim=(
